@@ -85,7 +85,7 @@ for _pid, _what, _ref in (
         ("C13", "one injected errno per scenario on send/recv/accept and on getsockopt/setsockopt/setblocking of a just-accepted socket, x schedules, with a healthy second connection; clauses P13_*: torn down once and only by the I/O thread, listener/trigger/loop/workers survive, other connection completes, buffers released", "DESIGN.md 6 (C13)"),
         ("C19", "pipelines mixing expecting and plain requests with waiting clients, head/body segmentation, lookahead 0..2; clauses P19_*: at most one interim, only for an expecting HTTP/1.1 request, placed between the neighbouring responses, waiting client never left waiting, request executed once with only its own fields", "DESIGN.md 6 (C19)")):
     _lvl = MC
-    _model = (" TLC also model-checks the implementation-shaped model spec/Channel.tla (one step per lock / condition / socket / pipe / select operation and per access to requests, total_outbufs_len, will_close, close_when_flushed, connected; output counted in bytes; watermark wait with Condition wait/notify, send faults, a client that goes away, Expect) on small scenarios - the wire is a byte prefix of what was produced, responses in order, in-order exactly-once execution, one at a time, no execution after a close decision, teardown once and by the I/O thread, no lost wake-up at quiescence, interim response placed once and only for a request that asked, waiting client never left waiting, backlog <= watermark + one write, paused producer released, dead connection closed, and the liveness property that the system comes to rest under fair scheduling (no livelock) - and validates recorded executions of every scenario inside the model slice against it step by step (same operation label, same post-state incl. the exact total_outbufs_len); a mismatch is reported as DRIFT and downgrades the evidence level.")
+    _model = (" TLC also model-checks the implementation-shaped model spec/Channel.tla (one step per lock / condition / socket / pipe / select operation and per access to requests, total_outbufs_len, will_close, close_when_flushed, connected; output counted in bytes; watermark wait with Condition wait/notify, send faults, a client that goes away, Expect) on small scenarios - the wire is a byte prefix of what was produced, responses in order, in-order exactly-once execution, one at a time, no execution after a close decision, teardown once and by the I/O thread, no lost wake-up at quiescence, interim response placed once and only for a request that asked, waiting client never left waiting, backlog <= watermark + one write, paused producer released, dead connection closed, and the liveness property that the system comes to rest under fair scheduling (no livelock) - and validates recorded executions of every scenario inside the model slice against it step by step (same operation label, same post-state incl. the exact total_outbufs_len); a mismatch is reported as DRIFT and downgrades the evidence level.  In the other direction, behaviours of Channel.tla produced by TLC's simulation mode are replayed on the real server (the scheduler follows the model's action sequence; a behaviour the server cannot follow is DRIFT).  Besides the hand-written scenarios, seeded random scenarios (checks/chan_random.py: request kinds, stray CRLFs, segmentation, lookahead, workers, application scripts incl. wsgi.file_wrapper, watermark / send_bytes / overflow settings, client read / close / reset patterns, errno sequences on send and recv; 80 in the quick tier, 600 in the thorough tier) are explored and judged by the same monitor, those inside the model's slice also validated against Channel.tla.")
     CHECKS[_pid] = (_lvl, "The real server (I/O loop, trigger, workers, channel) runs on a simulated kernel under a deterministic scheduler with a pre-emption point at every lock/condition/socket/pipe/select operation and every access to a shared channel attribute; scenarios: " + _what + ". Every recorded execution is judged by TLC against the observable-event monitor specification (spec/Pipeline.tla), which names the violated clause." + _model, _ref, _chan_note, _chan_tech + (" + TLC model checking of Channel.tla and step-by-step trace validation against it" if _lvl == MC else ""))
 
 NA_REASON = "check not built yet (work in progress; see DESIGN.md section 6 for the planned TLA+ specification)"
